@@ -486,7 +486,7 @@ func checkC18(c *Ctx) {
 		"raw-and-escaped-paths": {"a.go": []byte("package p\n\nimport `fmt`\n\nimport l \"l\\x69b\"\n\nvar X = fmt.Sprint(l.Foo, missing)\n"), "b.go": []byte("package p\n\nimport . `lib2`\n\nvar Y = Baz + X\n")},
 		// an import the importer cannot deliver in front of imports it can: the later ones are still imported
 		"unknown-then-known": {"a.go": []byte("package p\n\nimport (\n\t\"nowhere/pkg\"\n\t\"fmt\"\n\tl \"lib\"\n)\n\nvar X = fmt.Sprint(l.Foo, pkg.Y)\n"), "b.go": []byte("package p\n\nimport (\n\t\"lib2\"\n\t\"elsewhere\"\n)\n\nvar Y = lib2.Baz + elsewhere.Z\n")},
-		"cycle":                    {"a.go": []byte("package p\n\ntype A struct{ b *B }\n\nvar X = Y\n"), "b.go": []byte("package p\n\ntype B struct{ a *A }\n\nvar Y = X\n\nconst (\n\tC0 = iota\n\tC1\n)\n")},
+		"cycle":              {"a.go": []byte("package p\n\ntype A struct{ b *B }\n\nvar X = Y\n"), "b.go": []byte("package p\n\ntype B struct{ a *A }\n\nvar Y = X\n\nconst (\n\tC0 = iota\n\tC1\n)\n")},
 	}
 	var keys []string
 	for k := range pkgs {
